@@ -19,9 +19,16 @@ PROP = dict(
             dict(module="TemplateJail", cfg=dict(thorough="TemplateJailLive.cfg"), workers=4, timeout=dict(thorough=600)),
             dict(module="TemplateJail", cfg=dict(quick="TemplateJail_quick.cfg", thorough="TemplateJail_thorough.cfg"), emit=True,
                  workers=8, coverage=True, coverage_ignore=["Terminated"], timeout=dict(quick=300, thorough=900)),
+            # extension (notes/BrowseListing.md): the directory listings of browse - which entries, which order (sort / order /
+            # limit, cookies), counters, parent link, the JSON / HTML / custom-template renderings, the item links;
+            # termination of the handler first (liveness, small instance), then the invariants with one CASE per sampled directory
+            dict(module="BrowseListing", cfg=dict(thorough="BrowseListingLive.cfg"), workers=4, timeout=dict(thorough=600)),
+            dict(module="BrowseListing", cfg=dict(quick="BrowseListing_quick.cfg", thorough="BrowseListing_thorough.cfg"), emit=True,
+                 workers=8, coverage=True, timeout=dict(quick=300, thorough=900)),
         ],
         go=[dict(pkg="c02", test="TestC02", timeout=dict(quick=600, thorough=3000)),
-            dict(pkg="cx02tpl", test="TestCx02Tpl", timeout=dict(quick=300, thorough=1200))],
+            dict(pkg="cx02tpl", test="TestCx02Tpl", timeout=dict(quick=300, thorough=1200)),
+            dict(pkg="cx02browse", test="TestCx02Browse", timeout=dict(quick=300, thorough=1200))],
         exhaustive=dict(quick=False, thorough=False),
         technique="TLA+ spec FileServe.tla (CleanPath.tla) model-checked by TLC; outcome tables replayed against a real casket instance serving a token-marked tree",
         level_text="TLC checks exhaustively (request paths of <=L segments over 13 segment spellings incl. '.', '..', empty, backslash, x trailing slash x 8 Accept-Encoding sets x listing/archive queries x browse off/list/archive x plain/path-prefixed site) that the stepwise model of Server.serveHTTP -> browse -> staticfiles.serveFile serves only files the request names (InsideRoot, NoHidden, ServedIsNamed, SameOriginRedirect). The outcome table of every path is then replayed against a real instance (casket.Start from a Casketfile inside the root, raw HTTP/1.1 with percent-encoded spellings); bodies are gunzipped/unzipped/untarred and searched for the per-file tokens. Bounded model checking plus conformance replay: the input space is combinatorial and the oracle (which files) is decidable through the tokens.",
